@@ -211,7 +211,9 @@ func c05Classify(start int, s string) (kind string, specified bool, wantErr bool
 
 func c05GenStr(rt *rapid.T) c05Str {
 	alpha := []rune("JRWPASDOjrwpasdoJRWPNn+-")
-	junk := []rune("xX?0 ,\"\x00éZ*")
+	// (also letters which Unicode case folding maps onto letters of the alphabet: long s, Kelvin sign,
+	// dotless/dotted i, full-width forms)
+	junk := []rune("xX?0 ,\"\x00éZ*ſKıİＪｒＷ")
 	n := rapid.IntRange(0, 8).Draw(rt, "len")
 	withJunk := rapid.IntRange(0, 3).Draw(rt, "junk") == 0
 	rs := make([]rune, n)
